@@ -286,7 +286,9 @@ def drive(cfg, observers=True, post_calls=3):
         # --- the executor reacts: finalisation ---------------------------
         if isinstance(a, API.Forward) and M.phase == FWD and M.fwd == N:
             try:
-                sched.finalize(N)
+                # a fresh int object: equal to, but not identical with, any
+                # integer the schedule holds
+                sched.finalize(int(str(N)))
                 finalised = True
             except Exception as e:  # noqa: BLE001
                 run.obs_fail(["C08", "C10"], "finalize_rejected",
@@ -420,8 +422,14 @@ COSTS_ALL = [
     (1, 1, 5, 0), (1, 1, 0, 5), (1, 1, 3, 4),       # asymmetric disk
     (1, 1, 10, 10), (1, 1, 20, 20),                 # dominant disk
     (0.5, 1, 1.5, 0.25), (1.5, 2, 3, 1),            # dyadic non-integers
+    # extreme magnitudes (exact powers of two): the property is stated for all
+    # positive costs, and tolerance-based comparisons only show out here
+    (2.0 ** -40, 2.0 ** -39, 3 * 2.0 ** -40, 2.0 ** -40),   # everything tiny
+    (1, 2.0 ** 31, 2, 2),                                   # ub dominates
+    (2.0 ** 31, 1, 2, 2),                                   # uf dominates
 ]
-COSTS_QUICK = [COSTS_ALL[i] for i in (0, 1, 3, 4, 5, 6, 7, 10, 11, 14, 16)]
+COSTS_QUICK = [COSTS_ALL[i] for i in (0, 1, 3, 4, 5, 6, 7, 10, 11, 14, 16,
+                                      18, 19)]
 
 
 def box(N_max, tier, classes=None, passes_max=None, costs=None):
@@ -511,6 +519,38 @@ def box_deep(N_lo, N_hi, tier):
                     out.append(Config("HRevolve", (ram, disk) + tuple(cv), n))
         for c in ("SingleMemory", "SingleDiskCopy", "SingleDiskMove"):
             out.append(Config(c, (), n, 2 if c != "SingleDiskMove" else 1))
+    return out
+
+
+def box_large(tier):
+    """Magnitude layer: a few configurations per class at step counts beyond
+    interpreter/encoding boundaries (small-int cache at 256, 2**16), where a
+    comparison by identity or a packed key starts to fail.  Thorough only for
+    the 2**16 sentinels (seconds each)."""
+    d = COSTS_ALL[0]
+    out = []
+    Ns = (257, 300) if tier == "quick" else (257, 300, 1000)
+    for n in Ns:
+        for c in ("SingleMemory", "SingleDiskCopy"):
+            out.append(Config(c, (), n, 2))
+        out.append(Config("SingleDiskMove", (), n, 1))
+        out.append(Config("NoneSchedule", (), n, 1))
+        out.append(Config("Multistage", (3, 2, "maximum"), n))
+        out.append(Config("Multistage", (0, 4, "revolve"), n))
+        out.append(Config("Mixed", (5, "DISK"), n))
+        out.append(Config("TwoLevel", (100, 2, "RAM", "maximum"), n, 2))
+        out.append(Config("TwoLevel", (7, 3, "DISK", "revolve"), n, 2))
+        out.append(Config("Revolve", (5,) + d, n))
+        out.append(Config("HRevolve", (3, 2) + d, n))
+        out.append(Config("DiskRevolve", (2,) + d, n))
+        out.append(Config("PeriodicDiskRevolve", (2,) + d, n))
+    if tier != "quick":
+        out.append(Config("PeriodicDiskRevolve", (3,) + d, 65600))
+        out.append(Config("PeriodicDiskRevolve", (2,) + d, 65545))
+        out.append(Config("SingleDiskCopy", (), 66000, 2))
+        out.append(Config("SingleMemory", (), 66000, 2))
+        out.append(Config("Multistage", (3, 3, "maximum"), 66000))
+        out.append(Config("TwoLevel", (300, 2, "RAM", "maximum"), 66000))
     return out
 
 
